@@ -6,6 +6,7 @@
 #include <qthread/qthread-int.h>       /* for uint64_t */
 #include <stdio.h>                     /* for fprintf() */
 #include <stdlib.h>                    /* for abort() */
+#include <errno.h>                     /* for errno */
 #include <sys/time.h>                  /* for gettimeofday() */
 #ifdef HAVE_SYS_SYSCALL_H
 /* - syscall(2) */
@@ -177,6 +178,7 @@ int INTERNAL qt_process_blocking_call(void)
     qthread_debug(IO_DETAILS, "dequeue... theQueue.head = %p, .tail = %p, item:%p, thread:%p, rdata:%p\n", theQueue.head, theQueue.tail, item, item->thread, item->thread->rdata);
     QTHREAD_UNLOCK(&theQueue.lock);
     item->next = NULL;
+    errno      = 0;
     /* do something with <item> */
     switch(item->op) {
         default:
@@ -359,6 +361,9 @@ int INTERNAL qt_process_blocking_call(void)
             break;
         }
     }
+    /* the call ran on this pthread, so its error code is in this pthread's errno:
+     * hand it to the wrapper, which restores it for the calling task */
+    item->err = errno;
     /* and now, re-queue; once the task is back on a ready queue it may resume at
      * any moment, and every system-call wrapper reads item->ret and then frees
      * the job itself, so only jobs without such a wrapper are released here */
